@@ -43,11 +43,16 @@ def Mirp.getSeqBased (m : Mirp) (strict : Bool) : Option SeqInst :=
     let L := (m.horizon / mn + 2).floor.toNat
     some (((SeqInst.new m.g strict).setMaxVehicles m.g.estimateMaxVehicles).setMaxSeqLen L)
 
-/-- `get_path_based(make_feasible=False)` with a scripted sampler: `1 + ⌊h⌋ + ⌊10h⌋` rounds of `add_routes_better` -/
-def Mirp.getPathBased (m : Mirp) (pick : Nat → List Nat → Nat) : PathInst :=
-  let rounds := 1 + m.horizon.floor.toNat + (10 * m.horizon).floor.toNat
-  ((List.range rounds).foldl (fun (s : PathInst × Nat) _ =>
-      let r := s.1.addRoutesBetter pick s.2
-      (r.1, r.2.2.2)) (({ g := m.g } : PathInst), 0)).1
+/-- `get_path_based(make_feasible=False)` with a scripted sampler: `1 + ⌊h⌋ + ⌊10h⌋` rounds of `add_routes_better`;
+    the high cost is computed first even though it is only used as a node cost of the sampler: `none` when
+    `estimate_high_cost()` raises -/
+def Mirp.getPathBased (m : Mirp) (portFreq : List Rat) (pick : Nat → List Nat → Nat) : Option PathInst :=
+  match m.highCost portFreq with
+  | none => none
+  | some _ =>
+    let rounds := 1 + m.horizon.floor.toNat + (10 * m.horizon).floor.toNat
+    some ((List.range rounds).foldl (fun (s : PathInst × Nat) _ =>
+        let r := s.1.addRoutesBetter pick s.2
+        (r.1, r.2.2.2)) (({ g := m.g } : PathInst), 0)).1
 
 end Vrp
